@@ -106,6 +106,9 @@ def build_files(case) -> dict[str, str]:
         item = variant_items()[case[1]]
         text = "# page title #pt\n\n- 240101#Z1 anchor note with zid\n" + "\n".join(item) + "\n- 240102#Z2 trailing anchor\n"
         return {"a.zo": text}
+    if kind == "variant-crlf":
+        # the same page saved with Windows line endings
+        return {"a.zo": build_files(["variant", case[1]])["a.zo"].replace("\n", "\r\n")}
     _, layout, i, j = case
     a, b = REDUCED[i], REDUCED[j]
     if i == j:  # the same written ZID twice would be an input error, not a finding
@@ -200,8 +203,8 @@ def _judge_state(zdir, day, original: dict, prev: dict | None, step_no: int, had
             # narrow class: the item was written with NOTHING after its prefix on the first
             # line; the index then holds 'ZID body' where the rewritten file has 'ZID \n  body'
             files_first = str(d.get("files", "")).split("\n")[0].strip()
-            was_bare = any(re.fullmatch(r"[-ox~<>]( P[0-9])? *", ln) for ln in original[d["page"]].split("\n"))
-            collapsed = str(d.get("index", "")) == re.sub(r" ?\n\s*", " ", str(d.get("files", "")), count=1)
+            was_bare = any(re.fullmatch(r"[-ox~<>]( P[0-9])? *", ln.rstrip("\r")) for ln in original[d["page"]].split("\n"))
+            collapsed = str(d.get("index", "")) == re.sub(r" ?\r?\n\s*", " ", str(d.get("files", "")), count=1)
             if was_bare and files_first == str(d.get("zid")) and collapsed:
                 suffix = ":first-line-holds-only-the-prefix"
         if d["what"] == "create":
@@ -390,6 +393,11 @@ def _cases(ctx):
         for layout in ("same_block", "two_pages", "subdir"):
             for i, j in ((di, wi), (wi, di)):
                 cases.append([["pair", layout, i, j], "cr", False, 0])
+    for v in range(nv):
+        item = variant_items()[v]
+        date_only_first = len(item) > 1 and item[0].split(" ")[-1][:2] == "20" and item[0].split(" ")[-1][4:5] == "-"
+        if date_only_first or not ctx.quick or v % 4 == 0:
+            cases.append([["variant-crlf", v], "cr", False, 0])
     # the notes directory given through a symlink / with a '..' in it (same directory, same result)
     for v in range(0, nv, 5 if ctx.quick else 2):
         cases.append(["spelled", "symlink", ["variant", v], "cr", False, 0])
